@@ -207,7 +207,15 @@ func genLife(t *rapid.T) *Scenario {
 	return sc
 }
 
-func runScenario(t *testing.T, sc *Scenario) (*stats, error) {
+func runScenario(t *testing.T, sc *Scenario) (st *stats, err error) {
+	if sc.Verbose > 0 {
+		defer vstat.SetGlogV(sc.Verbose)()
+		defer func() {
+			if st != nil {
+				st.label("glog-verbosity>0")
+			}
+		}()
+	}
 	switch sc.Kind {
 	case "ingest":
 		return runIngest(sc)
@@ -228,6 +236,7 @@ func part(t *testing.T, name string, gen func(*rapid.T) *Scenario) {
 	rec := vstat.New("C12", name)
 	rec.RunRapid(t, func(rt *rapid.T) {
 		sc := gen(rt)
+		sc.Verbose = rapid.SampledFrom([]int{0, 0, 0, 0, 1, 2, 3}).Draw(rt, "glog-v")
 		rec.Current(sc)
 		st, err := runScenario(t, sc)
 		rec.Case(sc, st.nontrivial(), st.list()...)
